@@ -4,6 +4,8 @@ package main
 // and the asn1-ber wire reader (DESIGN §5.1, §5.3–5.5).
 
 import (
+	"net/netip"
+	"strconv"
 	"fmt"
 	"go/token"
 	"go/types"
@@ -806,9 +808,30 @@ func registerEnvIntrinsics() {
 	I["net.Listen"] = func(in *Interp, fr *frame, args []Value) (Value, bool) {
 		env := in.env
 		in.emit("listen", fmt.Sprint(args[1]))
-		if fail := env.F["listenErr"]; fail != nil && in.branch(fail, "net.Listen outcome") {
+		busy := func() Value {
 			in.emit("listen.err")
-			return Tuple{Iface{}, in.newError(CStr("listen tcp: bind: address already in use"), nil)}, true
+			e := in.newError(CStr("listen tcp: bind: address already in use"), nil)
+			errObj(e).F["errno"] = Int(98) // EADDRINUSE
+			return Tuple{Iface{}, e}
+		}
+		// like the real net.Listen: a port outside 0..65535 (or not a number) is refused
+		if a, ok := args[1].(Str); ok {
+			if c, ok := a.Concrete(); ok {
+				if i := strings.LastIndexByte(c, ':'); i >= 0 {
+					if pn, err := strconv.Atoi(c[i+1:]); err != nil || pn < 0 || pn > 65535 {
+						in.emit("listen.err")
+						return Tuple{Iface{}, in.newError(CStr("listen tcp: address "+c[i+1:]+": invalid port"), nil)}, true
+					}
+				}
+			}
+		}
+		nth, _ := env.F["listenCalls"].(Int)
+		env.F["listenCalls"] = nth + 1
+		if once := env.F["listenBusyOnce"]; once != nil && nth == 0 && in.branch(once, "address briefly in use") {
+			return busy(), true // only the first attempt finds the address taken
+		}
+		if fail := env.F["listenErr"]; fail != nil && in.branch(fail, "net.Listen outcome") {
+			return busy(), true
 		}
 		l := in.newObj("listener")
 		l.F["addr"] = args[1]
@@ -886,13 +909,74 @@ func registerEnvIntrinsics() {
 		}
 		return Slice{arr: &arr, n: 16, cp: 16}, true
 	}
+	// netip.Addr values carry their text in the first field (the engine's values are
+	// dynamically typed; only the operations below look inside)
 	I["net/netip.ParseAddr"] = func(in *Interp, fr *frame, args []Value) (Value, bool) {
 		c := in.needConcrete(fr, "netip.ParseAddr", args[0])
 		z := in.zero(fr.curInstr.(ssa.Value).Type().(*types.Tuple).At(0).Type())
-		if parseIPLike(c[0]) {
+		a, err := netip.ParseAddr(c[0])
+		if err == nil {
+			if st, ok := z.(Struct); ok && len(st) > 0 {
+				st[0] = CStr(a.String())
+			}
 			return Tuple{z, Iface{}}, true
 		}
 		return Tuple{z, in.newError(CStr("ParseAddr: unable to parse IP"), nil)}, true
+	}
+	addrOf := func(v Value) (netip.Addr, bool) {
+		st, ok := v.(Struct)
+		if !ok || len(st) == 0 {
+			return netip.Addr{}, false
+		}
+		s, ok := st[0].(Str)
+		if !ok {
+			return netip.Addr{}, true // the zero Addr
+		}
+		c, _ := s.Concrete()
+		a, err := netip.ParseAddr(c)
+		return a, err == nil
+	}
+	for name, f := range map[string]func(netip.Addr) bool{
+		"Is4": netip.Addr.Is4, "Is6": netip.Addr.Is6, "IsValid": netip.Addr.IsValid, "Is4In6": netip.Addr.Is4In6,
+		"IsLoopback": netip.Addr.IsLoopback, "IsUnspecified": netip.Addr.IsUnspecified,
+	} {
+		f := f
+		I["(net/netip.Addr)."+name] = func(in *Interp, fr *frame, args []Value) (Value, bool) {
+			a, ok := addrOf(args[0])
+			if !ok {
+				return nil, false
+			}
+			return f(a), true
+		}
+	}
+	I["(net/netip.Addr).String"] = func(in *Interp, fr *frame, args []Value) (Value, bool) {
+		a, ok := addrOf(args[0])
+		if !ok {
+			return nil, false
+		}
+		return CStr(a.String()), true
+	}
+	I["net/netip.AddrPortFrom"] = func(in *Interp, fr *frame, args []Value) (Value, bool) {
+		z := in.zero(fr.curInstr.(ssa.Value).Type())
+		st, ok := z.(Struct)
+		if !ok || len(st) < 2 {
+			return nil, false
+		}
+		st[0] = copyVal(args[0])
+		st[1] = args[1]
+		return st, true
+	}
+	I["(net/netip.AddrPort).String"] = func(in *Interp, fr *frame, args []Value) (Value, bool) {
+		st, ok := args[0].(Struct)
+		if !ok || len(st) < 2 {
+			return nil, false
+		}
+		a, ok := addrOf(st[0])
+		p, okp := st[1].(Int)
+		if !ok || !okp {
+			return nil, false
+		}
+		return CStr(netip.AddrPortFrom(a, uint16(p)).String()), true
 	}
 
 	// ---- asn1-ber wire reader ----
